@@ -53,9 +53,32 @@ fn leaf_sets(seed: u64, full: bool) -> Vec<Vec<u16>> {
     v
 }
 
+fn run_invariants(cfg: &str, seed: u64, steps: usize, parallel: bool, rt: &tokio::runtime::Runtime, out: &mut Vec<Failure>) {
+    let r = if cfg == "whatsapp_v1" {
+        rt.block_on(akd::vx_export::c05_tree_invariants::<akd_core::WhatsAppV1Configuration>(seed, steps, 9, parallel))
+    } else {
+        rt.block_on(akd::vx_export::c05_tree_invariants::<akd_core::ExperimentalConfiguration<akd_core::ExampleLabel>>(seed, steps, 9, parallel))
+    };
+    if let Ok(bad) = r {
+        if let Some(b) = bad.first() {
+            out.push(Failure {
+                clause: "azks_proofs/assumed_tree_invariants#consistent_and_shaped".into(),
+                case: vec!["c05".into(), "invariants".into(), cfg.into(), seed.to_string(), steps.to_string(), (parallel as u8).to_string()],
+                input: format!("[{cfg}] random history (seed {seed}, {steps} publishes over 9 labels, {} insertion); after every publish the whole stored tree is read at the latest epoch", if parallel { "parallel" } else { "sequential" }),
+                expected: "the two invariants unit azks_proofs ASSUMES of the stored tree: trie shape and hash consistency".into(),
+                observed: format!("{b} ({} problems)", bad.len()),
+                finding_id: None,
+            });
+        }
+    }
+}
+
 pub fn search(seed: u64, full: bool, rt: &tokio::runtime::Runtime) -> SearchResult {
     let mut out = vec![];
     let mut n = 0;
+    for cfg in ["whatsapp_v1", "experimental"] { for k in 0..(if full { 6u64 } else { 2 }) { for par in [false, true] {
+        run_invariants(cfg, seed.wrapping_add(k), if full { 14 } else { 8 }, par, rt, &mut out); n += 1;
+    } } }
     for leaves in leaf_sets(seed, full) {
         let mut queries: Vec<u16> = leaves.clone();
         for l in &leaves { for b in 0..16 { queries.push(l ^ (1 << b)); } }
@@ -86,6 +109,11 @@ pub fn search(seed: u64, full: bool, rt: &tokio::runtime::Runtime) -> SearchResu
 }
 
 pub fn replay(case: &[&str], rt: &tokio::runtime::Runtime) -> (bool, String) {
+    if case[0] == "invariants" {
+        let mut out = vec![];
+        run_invariants(case[1], case[2].parse().unwrap(), case[3].parse().unwrap(), case[4] == "1", rt, &mut out);
+        return match out.first() { Some(f) => (true, format!("{}: expected {}, observed {}", f.input, f.expected, f.observed)), None => (false, "holds".into()) };
+    }
     if case[0] == "empty" {
         let r = empty_tree(rt);
         let fails = r.iter().any(|(c, x)| c == case[1] && matches!(x, Ok(false)));
